@@ -346,7 +346,7 @@ def pair_rule(chk, setup):
         chk.ob("R-PAIR", c + "[target_dt]", "target_dt = max(T_min / 20, dt / min_dt_ratio)", ok,
                derived="max(%s ; %s)" % (ps[0].canon(), ps[1].canon()), loc=fi.loc(tgt), stmt=norm_stmt(tgt))
     # the cached damping replaces xi exactly for the sentinel -1
-    xi_sentinel(chk, fi, c, "R-PAIR")
+    xi_sentinel(chk, fi, c, "R-PAIR", cls_q=ACC)
     # T_min is the first non-zero period: the variable in the period term is assigned periods[0] when periods[0] != 0, periods[1] otherwise
     okt, why = False, "the period term of the max is not a twice-assigned local (%s)" % tmin_atom
     defs = [n for n in ast.walk(fi.node) if isinstance(n, ast.Assign) and len(n.targets) == 1 and isinstance(n.targets[0], ast.Name) and
@@ -406,13 +406,13 @@ def pair_rule(chk, setup):
 
 
 
-def xi_sentinel(chk, fi, c, rule):
+def xi_sentinel(chk, fi, c, rule, cls_q=None):
     """`xi` is replaced by the cached damping exactly when it equals the sentinel -1 (an explicit xi = 0 must be honoured).
     Decided on the interpretation, so the statement form (`if xi == -1: xi = cached`) and the expression form
     (`d = cached if xi == -1 else xi`) are the same thing: (a) every comparison that involves xi is `== -1` (or `!= -1`);
     (b) with xi = -1 the damping handed on derives from the cached attribute; (c) with xi = 0, -0.5, -2 it is that constant."""
     from ..tyob import analyse, against_const
-    cls = fi.cls.qualname if fi.cls is not None else None
+    cls = cls_q or (fi.cls.qualname if fi.cls is not None else None)       # the class whose objects are analysed (the method may be inherited)
     NJ = ("eqsig.sdof.nigam_and_jennings_response", "eqsig.sdof.response_series", "eqsig.sdof.pseudo_response_spectra")
 
     def handed_on(xiv):
